@@ -164,3 +164,14 @@ func scratchRoots() []string {
 	sort.Strings(out[1:])
 	return out
 }
+
+// soak runs every failing call n times (panics are swallowed): state that a failing call leaves behind (a counter
+// not decremented, a pooled buffer put back dirty) only shows in the calls made afterwards, so a soak is followed by
+// the property's ordinary battery of in-domain calls.
+func soak(n int, fails ...func()) {
+	for i := 0; i < n; i++ {
+		for _, f := range fails {
+			catch(f)
+		}
+	}
+}
